@@ -8,8 +8,8 @@ from . import core
 from .c06 import gen_library
 from .core import cq_bool, cq_list, cq_nat
 
-THEOREMS = ["C05_frame", "C05_neutral", "C05_memo_transparent", "C05_sequences", "C05_lookup_copy",
-            "C05_refuted", "C05_example"]
+THEOREMS = ["C05_frame", "C05_neutral", "C05_memo_transparent", "C05_sequences", "C05_dotted_refuted",
+            "C05_sequences_carved", "C05_lookup_copy", "C05_refuted", "C05_example"]
 KINDS = ["WImportMemo", "WConstSym", "WArgHook", "WOther"]
 
 
@@ -102,6 +102,33 @@ def gen_import_library(rng):
     return "\n".join(lines) + "\n", seqs
 
 
+def gen_dotted_import_library(rng):
+    """`import Lib.*;` declared in an ENCLOSING package (an object shared by every copy flatten makes of the
+    package's models), used through a DOTTED name (A.B) by one model and through the simple name (A) by
+    another (ast.py:665-690)"""
+    two = rng.random() < 0.4
+    a, b = rng.randint(1, 9), rng.randint(1, 9)
+    lines = ["package Lib", "  model A", "    Real x;", "    model B", "      Real y;", "    equation", "      y = %d.0;" % a,
+             "    end B;", "  equation", "    x = %d.0;" % b, "  end A;", "end Lib;"]
+    if two:
+        lines += ["package Lib2", "  model C", "    Real z;", "    model D", "      Real u;", "    equation", "      u = 3.0;",
+                  "    end D;", "  equation", "    z = 4.0;", "  end C;", "end Lib2;"]
+    lines += ["package P", "  import Lib.*;"] + (["  import Lib2.*;"] if two else [])
+    lines += ["  model M1", "    A.B b;", "  end M1;", "  model M2", "    A a;", "  end M2;"]
+    models = [["P", "M1"], ["P", "M2"]]
+    if two:
+        lines += ["  model M3", "    C.D d;", "    A a;", "  end M3;", "  model M4", "    C c;", "    A.B b;", "  end M4;"]
+        models += [["P", "M3"], ["P", "M4"]]
+    if rng.random() < 0.5:
+        lines += ["  package Q", "    model M5", "      A.B b;", "      A a;", "    end M5;", "  end Q;"]
+        models.append(["P", "Q", "M5"])
+    lines += ["end P;"]
+    seqs = [[["flatten", x], ["flatten", y]] for x in models for y in models]
+    rng.shuffle(seqs)
+    seqs = seqs[:6] + [[["flatten", rng.choice(models)] for _ in range(3)] for _ in range(3)]
+    return "\n".join(lines) + "\n", seqs
+
+
 SMALL_MODEL = "model %s\n  parameter Real a = %d.0;\n  Real x(start = 1.0);\nequation\n  der(x) = -x / a;\nend %s;\n"
 
 
@@ -127,13 +154,57 @@ def gen_casadi_cli(rng, i):
     return {"kind": "cli", "files": files, "text": "".join(files.values()), "models": pick, "target": "casadi"}
 
 
-def tag_of(text, why_kind):
-    """narrow tag of a failing sequence (for findings/known.d/C05.json)"""
+def tag_of(text, why_kind, req_path=None):
+    """narrow tag of a failing sequence (for findings/known.d/C05.json): computed from the library text and
+    the class whose request differed"""
     import re
+    body = ""
+    if req_path:
+        m = re.search(r"^\s*(?:model|class)\s+%s\b(.*?)^\s*end\s+%s\s*;" % (re.escape(req_path[-1]), re.escape(req_path[-1])),
+                      text, flags=re.M | re.S)
+        body = m.group(1) if m else ""
+    if body and re.search(r"import\s+[\w.]+\.\*\s*;", text):
+        tops = set(re.findall(r"^(?:package|model|class|connector)\s+(\w+)", text, flags=re.M))
+        for m in re.finditer(r"^\s*(\w+)\.\w[\w.]*\s+\w+\s*(?:\(|;)", body, flags=re.M):
+            if m.group(1) not in tops and m.group(1) not in ("der",):
+                return "dotted-name-through-unqualified-import"
     for m in re.finditer(r"(?:package|model|class)\s+\w+\s*((?:\s*import\s+[\w.]+\.\*\s*;)+)", text):
         if m.group(1).count("import") >= 2 and why_kind == "ClassNotFoundError-after-ok":
             return "import-memo-last-package"
     return "sequence-differs"
+
+
+def source_star_descends(repo):
+    """does the unqualified-import stage of Class._find_class look the rest of a dotted name up inside the class
+    it found (True), or return that class whatever follows (False)?  fail-closed: None"""
+    try:
+        mod = pyast.parse(open(repo + "/src/pymoca/ast.py").read())
+    except (OSError, SyntaxError) as e:
+        return None, "cannot parse: %s" % e
+    fn = None
+    for n in mod.body:
+        if isinstance(n, pyast.ClassDef) and n.name == "Class":
+            for m in n.body:
+                if isinstance(m, pyast.FunctionDef) and m.name == "_find_class":
+                    fn = m
+    if fn is None:
+        return None, "Class._find_class not found"
+    hits = [n for n in pyast.walk(fn) if isinstance(n, pyast.If) and
+            pyast.dump(n.test) == pyast.dump(pyast.parse("c is not None").body[0].value)]
+    if len(hits) != 1:
+        return None, "expected one `if c is not None:` in _find_class, found %d" % len(hits)
+    body = hits[0].body
+
+    def d(src):
+        return pyast.dump(pyast.parse(src).body[0])
+    memo_ok = [d("self.imports[component_ref.name] = found_comp_ref")]
+    descend = d("if component_ref.child:\n    c = c._find_class(component_ref.child[0], False)")
+    dumps = [pyast.dump(x) for x in body]
+    if len(dumps) == 2 and dumps[0] in memo_ok and dumps[1] == d("return c"):
+        return False, "ok"
+    if len(dumps) == 3 and dumps[0] in memo_ok and dumps[1] == descend and dumps[2] == d("return c"):
+        return True, "ok"
+    return None, "unqualified-import stage of _find_class has an unknown shape"
 
 
 BAD_MODEL = "model Bad%d\n  %s c(nonexistent%d = 1.0);\nend Bad%d;\n"
@@ -143,14 +214,14 @@ def judge_lib(case, out):
     """-> list of (why, failing sequence) — every request of every sequence equals the fresh-parse result"""
     bad = []
     if "got" not in out:
-        return [("requests could not be run: %s" % json.dumps(out)[:200], None, "harness")]
+        return [("requests could not be run: %s" % json.dumps(out)[:200], None, "harness", None)]
     for seq, got in zip(out["seqs"], out["got"]):
         for i, (r, g) in enumerate(zip(seq, got)):
             w = out["want"][r[0] + ":" + ".".join(r[1])]
             if g[:2] != w[:2]:
                 kind = "ClassNotFoundError-after-ok" if (g[:2] == ["exc", "ClassNotFoundError"] and w[0] == "ok") else "differs"
                 bad.append(("request %d (%s %s) of sequence %s gives %s; on a fresh parse it gives %s"
-                            % (i, r[0], ".".join(r[1]), [[x[0], ".".join(x[1])] for x in seq], g[:2], w[:2]), seq, kind))
+                            % (i, r[0], ".".join(r[1]), [[x[0], ".".join(x[1])] for x in seq], g[:2], w[:2]), seq, kind, r[1]))
                 break
     return bad
 
@@ -182,10 +253,14 @@ def run(ctx):
                "source flags %s %s (%s); when the shape is not recognised the C06 check decides by behaviour" % (sg, sh, fwhy)
                ) if (sg is False or sh is False) else ctx.notes.setdefault("deepcopy_flags", [sg, sh, fwhy])
 
+    sd, sdwhy = source_star_descends(core.REPO)
+    ctx.notes["star_descends_flag"] = {"value": sd, "how": sdwhy,
+                                       "theorem": "C05_sequences" if sd else "C05_sequences_carved (+ known finding for dotted names)"}
+    ctx.oblige("tie:unqualified-import stage of _find_class has a modelled shape", sd is not None, sdwhy)
     thorough = ctx.tier == "thorough"
     cases = []
     # generated libraries
-    n_lib = ctx.scaled(16, 100)
+    n_lib = ctx.scaled(13, 100)
     for i in range(n_lib):
         lib = gen_library(ctx.rng)
         kinds = ["flatten"]
@@ -209,6 +284,12 @@ def run(ctx):
     for i in range(ctx.scaled(3, 20)):
         text, seqs = gen_import_library(ctx.rng)
         cases.append({"kind": "lib", "src": "generated-imports", "text": text, "snap": 2, "first_seqs": seqs,
+                      "auto": {"seed": ctx.rng.randrange(1 << 30), "kinds": ["flatten"], "max_reqs": 6,
+                               "n2": ctx.scaled(2, 8), "n3": ctx.scaled(1, 4)}})
+    # unqualified imports in an enclosing package, used through dotted and simple names by different models
+    for i in range(ctx.scaled(3, 20)):
+        text, seqs = gen_dotted_import_library(ctx.rng)
+        cases.append({"kind": "lib", "src": "generated-dotted-imports", "text": text, "snap": 2, "first_seqs": seqs,
                       "auto": {"seed": ctx.rng.randrange(1 << 30), "kinds": ["flatten"], "max_reqs": 6,
                                "n2": ctx.scaled(2, 8), "n3": ctx.scaled(1, 4)}})
     # every test model
@@ -250,8 +331,8 @@ def run(ctx):
         cases.append(gen_casadi_cli(ctx.rng, i))
     n_cli += n_cli_casadi
     # lookup model: real _find_class (with the import memo being written) vs Model/C05_frame.v `find`
-    for i in range(ctx.scaled(10, 80)):
-        text = gen_import_library(ctx.rng)[0] if i % 2 == 0 else gen_library(ctx.rng)["text"]
+    for i in range(ctx.scaled(9, 80)):
+        text = [gen_import_library(ctx.rng)[0], gen_library(ctx.rng)["text"], gen_dotted_import_library(ctx.rng)[0]][i % 3]
         cases.append({"kind": "find", "text": text, "seed": ctx.rng.randrange(1 << 30), "max": ctx.scaled(30, 60)})
     try:
         corpus = json.load(open(core.VERIF + "/corpus/C05/cases.json"))
@@ -288,8 +369,9 @@ def run(ctx):
             nontrivial.add("cli:" + json.dumps(c["models"]) + str(hash(c["text"])))
             continue
         bad = judge_lib(c, o)
-        for why_bad, seq, kind in bad[:2]:
-            core.report(ctx, tag_of(c["text"], kind), why_bad,
+        bad.sort(key=lambda b: tag_of(c["text"], b[2], b[3]) != "sequence-differs")
+        for why_bad, seq, kind, rpath in bad[:2]:
+            core.report(ctx, tag_of(c["text"], kind, rpath), why_bad,
                         {"case": {"kind": "lib", "text": c["text"], "seqs": [seq] if seq else [], "snap": 0,
                                   "src": c.get("src")}, "why": why_bad})
         if "got" in o:
@@ -350,13 +432,14 @@ def run(ctx):
             xenc = cq_list(["(%s, Ext %s %s [] false)" % (pth(e[0]), cq_list([pth(s) for s in e[1]]),
                                                           cq_list(["(%s, %s)" % (cq_nat(nm("c:" + k)), pth(v)) for k, v in e[2]]))
                             for e in xm])
-            qenc = cq_list(["(%s, %s, %s)" % (cq_list([cq_nat(nm("c:" + x)) for x in reversed(q["p"])]), cq_nat(nm("c:" + q["k"])),
-                                              "None" if q["res"] is None else "(Some %s)" % pth(q["res"])) for q in qs])
-            fenc.append("(%s, %s, %s)" % (cq_list([pth(p) for p in o["paths"]]), xenc, qenc))
+            qenc = cq_list(["(%s, %s, %s, %s)" % (cq_list([cq_nat(nm("c:" + x)) for x in reversed(q["p"])]), cq_nat(nm("c:" + q["k"])),
+                                                  pth(q["ks"]),
+                                                  "None" if q["res"] is None else "(Some %s)" % pth(q["res"])) for q in qs])
+            fenc.append("(%s, %s, %s, %s)" % (cq_bool(bool(sd)), cq_list([pth(p) for p in o["paths"]]), xenc, qenc))
             fmeta.append((ci, qs[0]))
             n_find_q += len(qs)
     fbad = core.coq_eval_cases(ctx, "find", "From PV Require Import Lib.ObjGraph Model.C05_frame.\nImport ListNotations.\n",
-                               "list path * xmap * list (list key * key * option path)", fenc, "check_find", shard=150)
+                               "bool * list path * xmap * list (list key * key * list key * option path)", fenc, "check_find", shard=100)
     ctx.oblige("correspondence:lookup-model-vs-_find_class-with-import-memo", fbad == [],
                "mismatching groups: %s" % (None if fbad is None else [(fmeta[j][1]["p"], fmeta[j][1]["k"], fmeta[j][1]["res"],
                                                                            fmeta[j][1]["xm"]) for j in fbad[:3]]))
@@ -373,7 +456,7 @@ def run(ctx):
             return None
         o = core.run_child(ctx, "c05", [case])[0]
         b = judge_lib(case, o)
-        return bool(b) and tag_of(case["text"], b[0][2]) == e.get("tag")
+        return bool(b) and tag_of(case["text"], b[0][2], b[0][3]) == e.get("tag")
     core.replay_known(ctx, still_fails)
 
     ctx.cov["evaluations"] = n_seq + n_cli
